@@ -29,6 +29,8 @@ def run_unit(spec, tier):
         r = units.run_verus(spec['unit'])
     elif kind == 'bx':
         r = units.run_bx(spec['name'], spec['strategy'], spec.get('bounds') or BX_BOUNDS[tier], tier)
+    elif kind == 'bxd':
+        r = units.run_bx_determinism(spec['name'], 6 if tier == 'thorough' else 5)
     elif kind == 'bxt':
         r = units.run_bx_types(spec['name'], 3)
     elif kind == 'bxc':
@@ -125,6 +127,11 @@ def make_replay(pid, spec, r, f, tier):
     os.makedirs(d, exist_ok=True)
     stamp = time.strftime('%Y%m%d-%H%M%S')
     base = os.path.join(d, '%s-%s-%s-%d' % (pid, r.name, stamp, len(os.listdir(d))))
+    if f.get('det_case') is not None:
+        path = base + '.json'
+        json.dump({'kind': 'bx-determinism', 'property': pid, 'case': f['det_case'], 'clauses': f['clauses'], 'unit': r.name, 'tier': tier,
+                   'how': './check --replay <this file>: re-runs the two processes against /repo and compares their digests'}, open(path, 'w'), indent=1)
+        return path, True
     if f.get('types_case') is not None:
         path = base + '.json'
         json.dump({'kind': 'bx-types', 'property': pid, 'clauses': f['types_case'], 'unit': r.name,
@@ -354,6 +361,16 @@ PROPERTIES['C17'] = {
                    'recorded spellings alike. BOUNDED, never counted as proved.',
     'unchecked': ['types of the user\'s crates (their compiler name depends on the crate they are compiled in)', 'slices behind Box are covered as Box<[_]>; references, fn pointers, dyn types are outside the grammar',
                   'no deductive obligation is generated for this property'],
+}
+PROPERTIES['C19'] = {
+    'level': 'model_checking', 'units': lambda tier: [{'kind': 'bxd', 'name': 'determinism-standin'}],
+    'explanation': 'Determinism relates two executions; a contract can express it only as result = F(inputs) with F a spec function, and no such specification of '
+                   'simple() or generate() (string emission through codegen / format! / itertools) is within reach of either verifier. As the brief allows for functions '
+                   'out of reach, a bounded check stands in: every definition history within the bound is replayed twice in one process (fresh builders) and its offsets, '
+                   'text rendering and generated code under three fragment selections must be identical; the digest over everything is compared between two separately '
+                   'started processes. BOUNDED, never counted as proved. (The functions with exact postconditions in unit layout / generic - align_bytes, end, push_datum, '
+                   'the generic append strategies - are deterministic as a corollary of their contracts.)',
+    'unchecked': ['histories, shapes and fragment selections beyond the bound', 'processes on other machines / toolchains', 'no deductive obligation is generated for this property'],
 }
 PROPERTIES['C20'] = {
     'level': 'model_checking', 'units': lambda tier: [{'kind': 'bxc', 'name': 'convert-standin'}],
